@@ -1250,7 +1250,7 @@ static void DecodeMOVX(Word Index) {
         if ((!as_strcasecmp(ArgStr[2].str.p_str, "A"))
             || ((MomCPU >= CPU80251) && (!as_strcasecmp(ArgStr[2].str.p_str, "R11")))) {
             z = 0x10;
-            strcpy(ArgStr[2].str.p_str, ArgStr[1].str.p_str);
+            as_dynstr_copy(&ArgStr[2].str, &ArgStr[1].str);
             strmaxcpy(ArgStr[1].str.p_str, "A", STRINGSIZE);
         }
         if ((as_strcasecmp(ArgStr[1].str.p_str, "A"))
